@@ -312,6 +312,16 @@ func (r *Run) Violation(sig string, detail any) bool {
 	return true
 }
 
+// IsKnown reports whether sig matches an open known finding (no replay needed before reporting it).
+func (r *Run) IsKnown(sig string) bool {
+	for _, k := range r.known {
+		if sig == k.key || strings.HasPrefix(sig, k.key+"/") {
+			return true
+		}
+	}
+	return false
+}
+
 // Flaky records a violation that did not reproduce (harness bug, not an alarm).
 func (r *Run) Flaky(what string) {
 	r.mu.Lock()
